@@ -134,6 +134,10 @@ def hexb(h):
     return bytes.fromhex(h)
 
 
+class NotJson(Exception):
+    """a value outside the JSON data model (e.g. a dict with a non-string key)"""
+
+
 def coq_json(v):
     t = v["t"]
     if t == "none":
@@ -149,6 +153,8 @@ def coq_json(v):
     if t == "list":
         return "(JArr [%s])" % "; ".join(coq_json(e) for e in v["l"])
     if t == "dict":
+        if any("h" not in k for k, _ in v["kv"]):
+            raise NotJson()
         return "(JObj [%s])" % "; ".join("(%s, %s)" % (cb(hexb(k["h"])), coq_json(e)) for k, e in v["kv"])
     raise ValueError("not a JSON value: %r" % (v,))
 
@@ -386,7 +392,13 @@ def run(ctx):
     sample_vals = pick(vals[::vstep] + vals, coq_vals, lambda c: len(str(c["x"])) // 8)
     terms, refs = [], []
     for c in sample_docs:
-        real = "None" if not c["real"]["ok"] else "(Some %s)" % coq_json(c["real"]["v"])
+        try:
+            real = "None" if not c["real"]["ok"] else "(Some %s)" % coq_json(c["real"]["v"])
+        except NotJson:
+            # the implementation returned something no JSON document denotes: rendered as a
+            # term no decoder can produce (a string with the non-byte 256), so both
+            # model_ok and spec_ok come out false for this case
+            real = "(Some (JStr [256]))"
         terms.append("(CDoc %s %s %s)" % (cb(hexb(c["d"])), real, coq_outcome(c["gospec"])))
         refs.append(c)
     for c in sample_vals:
